@@ -181,6 +181,11 @@ class Inst:
         cpu.take_reset()
         cpu.registers.sctlr.m = 0
         rng = random.Random(self.regseed)
+        if self.cpu.configs['memory_system_architecture'] == 'PMSA' and self.regseed % 3 == 0:
+            # protection unit ON with no region programmed and SCTLR.BR = 1: privileged code runs from the background map,
+            # so every fetch and data access goes through the (configuration-dependent) translation code
+            cpu.registers.sctlr.br = 1
+            cpu.registers.sctlr.m = 1
         cpu.registers.cpsr.value = (cpu.registers.cpsr.value & 0x0FFFFFFF) | (rng.getrandbits(4) << 28)   # NZCV from the seed
         for n in range(13):
             cpu.registers.set(n, scen.reg_value(rng))
